@@ -596,41 +596,500 @@ mod real {
         }
         true
     }
+
+    // ------------------------------------------------------------------------------------
+    // families without a model (EXPLORED only), except `dst` which is modelled with the
+    // iteration order of CrashSimulator::node_states as an explicit input
+    // ------------------------------------------------------------------------------------
+    use redis_sim::buggify::{self, faults, FaultConfig};
+    use redis_sim::redis::{
+        Command, ExecutorDSTConfig, ExecutorDSTHarness, HashDSTConfig, HashDSTHarness, ListDSTConfig,
+        ListDSTHarness, SetDSTConfig, SetDSTHarness, SortedSetDSTConfig, SortedSetDSTHarness,
+        TransactionDSTConfig, TransactionDSTHarness, SDS,
+    };
+    use redis_sim::simulator::dst::{DSTConfig, DSTSimulation};
+    use redis_sim::simulator::dst_integration::RedisDSTSimulation;
+    use redis_sim::simulator::partition_tests::{run_partition_test, run_partition_test_batch, PartitionConfig};
+    use redis_sim::simulator::{
+        check_single_key_linearizability, CrashReason, HostId, MultiNodeSimulation, NodeState, PipelineSimulator,
+        ScenarioBuilder,
+    };
+    use redis_sim::streaming::compaction_dst::{CompactionDSTConfig, CompactionDSTHarness};
+    use redis_sim::streaming::dst::{StreamingDSTConfig, StreamingDSTHarness};
+    use redis_sim::streaming::wal_dst::{WalDSTConfig, WalDSTHarness};
+    use crate::rng::Rng;
+
+    fn sorted_map(m: &std::collections::HashMap<String, u64>) -> String {
+        let mut v: Vec<(&String, &u64)> = m.iter().collect();
+        v.sort();
+        v.iter().map(|(k, n)| format!("{}={}", k, n)).collect::<Vec<_>>().join(",")
+    }
+
+    pub fn dst_config(preset: &str, seed: u64) -> Option<DSTConfig> {
+        match preset {
+            "calm" => Some(DSTConfig::calm(seed)),
+            "default" => Some(DSTConfig::new(seed)),
+            "chaos" => Some(DSTConfig::chaos(seed)),
+            // more nodes, shorter recoveries: several nodes are down at once far more often
+            "chaos9" => Some(DSTConfig::chaos(seed).with_nodes(9)),
+            _ => None,
+        }
+    }
+
+    fn node_state(s: Option<&NodeState>) -> String {
+        match s {
+            Some(NodeState::Running) => "R".into(),
+            Some(NodeState::Crashed { crash_time, .. }) => format!("C{}", crash_time.as_millis()),
+            Some(NodeState::Recovering { recovery_start, expected_completion }) => format!("V{}-{}", recovery_start.as_millis(), expected_completion.as_millis()),
+            None => "?".into(),
+        }
+    }
+
+    /// DSTSimulation: `run_operations(1)` per line (exactly `step` + the time-limit test), node
+    /// states after every step, then the result.  Afterwards — the trace is complete — the fixed
+    /// iteration order of `CrashSimulator::node_states` is read out (everything recovered, every
+    /// node crashed, `crashed_nodes()`): `pi`.
+    pub fn dst(preset: &str, seed: u64, ops: usize, lines: &mut Vec<String>, raw: &mut Vec<String>, pi: &mut Vec<usize>) -> bool {
+        let Some(cfg) = dst_config(preset, seed) else { return false };
+        let n = cfg.node_count;
+        let max_time = cfg.max_time_ms;
+        let mut sim = DSTSimulation::with_config(cfg);
+        let mut multi = 0usize;
+        for k in 1..=ops {
+            sim.run_operations(1);
+            let st: Vec<String> = (0..n).map(|i| node_state(sim.crash_simulator().get_state(HostId(i)))).collect();
+            if sim.crash_simulator().crashed_nodes().len() >= 2 {
+                multi += 1;
+            }
+            lines.push(format!("{} now={} {}", k, sim.current_time().as_millis(), st.join(" ")));
+            if sim.current_time().as_millis() >= max_time {
+                break;
+            }
+        }
+        let res = sim.finalize().clone();
+        lines.push(format!(
+            "result time={} ops={} crashes={} recoveries={} lin={} conv={} errors={} history={}",
+            res.total_time_ms, res.total_operations, res.crashes, res.recoveries, res.linearizable, res.converged, res.errors.len(), res.operation_history.len()
+        ));
+        raw.push(format!("summary {}", res.summary()));
+        raw.push(format!("steps-with-2+-crashed {}", multi));
+        raw.push(format!("avg-recovery {:?}", sim.crash_simulator().stats().average_recovery_time_ms.to_bits()));
+        // read out the iteration order (does not touch the recorded trace)
+        sim.advance_time(1_000_000_000);
+        for i in 0..n {
+            sim.crash_node(i, CrashReason::TestTriggered);
+        }
+        *pi = sim.crash_simulator().crashed_nodes().iter().map(|h| h.0).collect();
+        true
+    }
+
+    pub fn redis_dst(preset: &str, seed: u64, ops: usize, lines: &mut Vec<String>, raw: &mut Vec<String>) -> bool {
+        let cfg = match preset {
+            "calm" => FaultConfig::calm(),
+            "moderate" => FaultConfig::moderate(),
+            "chaos" => FaultConfig::chaos(),
+            _ => return false,
+        };
+        // as run_redis_dst_batch does
+        buggify::reset_stats();
+        buggify::set_config(cfg.clone());
+        let mut sim = RedisDSTSimulation::new(seed, 5).with_faults(cfg);
+        let res = sim.run(ops).clone();
+        for op in &res.operation_history {
+            lines.push(format!("{:?}", op));
+        }
+        lines.push(format!("result time={} ops={} crashes={} recoveries={} by_type={}", res.total_time_ms, res.total_operations, res.crashes, res.recoveries, sorted_map(&res.operations_by_type)));
+        let st = sim.stats();
+        lines.push(format!("stats {:?}", st));
+        raw.push(format!("buggify checks={} triggers={}", sorted_map(&res.buggify_stats.checks), sorted_map(&res.buggify_stats.triggers)));
+        true
+    }
+
+    macro_rules! typed_dst {
+        ($H:ident, $cfg:expr, $ops:expr, $lines:expr, $state:expr) => {{
+            let mut h = $H::new($cfg);
+            for k in 1..=$ops {
+                h.run(1);
+                let r = h.result();
+                $lines.push(format!("{} {:?} viol={}", k, r.last_op, r.invariant_violations.len()));
+                if !r.invariant_violations.is_empty() {
+                    break;
+                }
+            }
+            let r = h.result().clone();
+            let last = r.last_op.clone();
+            let mut rr = r.clone();
+            rr.last_op = None;
+            $lines.push(format!("result {:?} last={:?}", rr, last));
+            let f: &dyn Fn(&$H) -> String = &$state;
+            $lines.push(format!("state {}", f(&h)));
+        }};
+    }
+
+    pub fn typed(harness: &str, preset: &str, seed: u64, ops: usize, lines: &mut Vec<String>) -> bool {
+        match harness {
+            "executor" => {
+                let cfg = match preset {
+                    "default" => ExecutorDSTConfig::new(seed),
+                    "calm" => ExecutorDSTConfig::calm(seed),
+                    "chaos" => ExecutorDSTConfig::chaos(seed),
+                    "string_heavy" => ExecutorDSTConfig::string_heavy(seed),
+                    _ => return false,
+                };
+                let mut h = ExecutorDSTHarness::new(cfg);
+                for k in 1..=ops {
+                    h.run(1);
+                    let r = h.result();
+                    lines.push(format!("{} {:?} viol={}", k, r.last_op, r.invariant_violations.len()));
+                    if !r.invariant_violations.is_empty() {
+                        break;
+                    }
+                }
+                let r = h.result().clone();
+                lines.push(format!("result {:?}", r));
+                let mut keys: Vec<String> = h.executor().get_data().keys().cloned().collect();
+                keys.sort();
+                lines.push(format!("state keys={}", keys.join(",")));
+            }
+            "list" => {
+                let cfg = match preset {
+                    "default" => ListDSTConfig::new(seed),
+                    "high_churn" => ListDSTConfig::high_churn(seed),
+                    "modify_heavy" => ListDSTConfig::modify_heavy(seed),
+                    _ => return false,
+                };
+                typed_dst!(ListDSTHarness, cfg, ops, lines, |h: &ListDSTHarness| format!("{:?}", h.list().range(0, -1)));
+            }
+            "set" => {
+                let cfg = match preset {
+                    "default" => SetDSTConfig::new(seed),
+                    "small_members" => SetDSTConfig::small_members(seed),
+                    "high_churn" => SetDSTConfig::high_churn(seed),
+                    "large_members" => SetDSTConfig::large_members(seed),
+                    _ => return false,
+                };
+                typed_dst!(SetDSTHarness, cfg, ops, lines, |h: &SetDSTHarness| {
+                    let mut m: Vec<String> = h.set().members().iter().map(|x| format!("{:?}", x)).collect();
+                    m.sort();
+                    m.join(",")
+                });
+            }
+            "hash" => {
+                let cfg = match preset {
+                    "default" => HashDSTConfig::new(seed),
+                    "small_fields" => HashDSTConfig::small_fields(seed),
+                    "high_churn" => HashDSTConfig::high_churn(seed),
+                    _ => return false,
+                };
+                typed_dst!(HashDSTHarness, cfg, ops, lines, |h: &HashDSTHarness| {
+                    let mut m: Vec<String> = h.hash().get_all().iter().map(|x| format!("{:?}", x)).collect();
+                    m.sort();
+                    m.join(",")
+                });
+            }
+            "sorted-set" => {
+                let cfg = match preset {
+                    "default" => SortedSetDSTConfig::new(seed),
+                    "small_keyspace" => SortedSetDSTConfig::small_keyspace(seed),
+                    "large_keyspace" => SortedSetDSTConfig::large_keyspace(seed),
+                    _ => return false,
+                };
+                typed_dst!(SortedSetDSTHarness, cfg, ops, lines, |h: &SortedSetDSTHarness| format!("{:?}", h.sorted_set().range(0, -1)));
+            }
+            "transaction" => {
+                let cfg = match preset {
+                    "default" => TransactionDSTConfig::new(seed),
+                    "high_conflict" => TransactionDSTConfig::high_conflict(seed),
+                    "error_heavy" => TransactionDSTConfig::error_heavy(seed),
+                    _ => return false,
+                };
+                let mut h = TransactionDSTHarness::new(cfg);
+                for k in 1..=ops {
+                    h.run(1);
+                    let r = h.result();
+                    lines.push(format!("{} {:?} viol={}", k, r.last_op, r.invariant_violations.len()));
+                    if !r.invariant_violations.is_empty() {
+                        break;
+                    }
+                }
+                lines.push(format!("result {:?}", h.result()));
+            }
+            _ => return false,
+        }
+        true
+    }
+
+    pub fn wal(preset: &str, seed: u64, lines: &mut Vec<String>) -> bool {
+        let cfg = match preset {
+            "default" => WalDSTConfig::default(),
+            "baseline" => WalDSTConfig::baseline(),
+            "crash_only" => WalDSTConfig::crash_only(),
+            "chaos" => WalDSTConfig::chaos(),
+            _ => return false,
+        };
+        let mut h = WalDSTHarness::new(seed, cfg);
+        let r = h.run();
+        lines.push(format!("{:?}", r));
+        true
+    }
+
+    fn paused_runtime() -> tokio::runtime::Runtime {
+        // virtual tokio time: the simulated stores' latency sleeps complete immediately
+        tokio::runtime::Builder::new_current_thread().enable_time().start_paused(true).build().expect("runtime")
+    }
+
+    pub fn streaming(preset: &str, seed: u64, ops: usize, lines: &mut Vec<String>) -> bool {
+        let cfg = match preset {
+            "default" => StreamingDSTConfig::new(seed),
+            "calm" => StreamingDSTConfig::calm(seed),
+            "moderate" => StreamingDSTConfig::moderate(seed),
+            "chaos" => StreamingDSTConfig::chaos(seed),
+            _ => return false,
+        };
+        paused_runtime().block_on(async {
+            let mut h = StreamingDSTHarness::new(cfg).await;
+            h.run(ops).await;
+            h.check_invariants().await;
+            let r = h.result();
+            for op in &r.history {
+                lines.push(format!("{:?}", op));
+            }
+            lines.push(format!("result total={} ok={} failed={} flushes={} crashes={} stats={:?} violations={:?}",
+                r.total_operations, r.successful_operations, r.failed_operations, r.flushes, r.crashes, r.store_stats, r.invariant_violations));
+        });
+        true
+    }
+
+    pub fn compaction(preset: &str, seed: u64, ops: usize, lines: &mut Vec<String>) -> bool {
+        let cfg = match preset {
+            "default" => CompactionDSTConfig::new(seed),
+            "calm" => CompactionDSTConfig::calm(seed),
+            "aggressive" => CompactionDSTConfig::aggressive(seed),
+            "chaos" => CompactionDSTConfig::chaos(seed),
+            _ => return false,
+        };
+        paused_runtime().block_on(async {
+            let mut h = CompactionDSTHarness::new(cfg).await;
+            h.run(ops).await;
+            h.check_invariants().await;
+            let r = h.result().clone();
+            for op in &r.history {
+                lines.push(format!("{:?}", op));
+            }
+            let mut rr = r.clone();
+            rr.history.clear();
+            lines.push(format!("result {:?}", rr));
+        });
+        true
+    }
+
+    /// a scripted multi-node scenario derived from the seed (the script generator is the
+    /// harness's own SplitMix, i.e. part of the configuration)
+    pub fn multi_node(preset: &str, seed: u64, ops: usize, lines: &mut Vec<String>) -> bool {
+        let mut r = Rng::new(seed ^ 0xC20);
+        let n = 3 + (seed % 3) as usize;
+        let mut sim = match preset {
+            "broadcast" => MultiNodeSimulation::new(n, seed),
+            "lossy" => MultiNodeSimulation::new(n, seed).with_packet_loss(0.2).with_message_delay(1, 40),
+            "no-anti-entropy" => MultiNodeSimulation::new_without_anti_entropy(n, seed).with_packet_loss(0.1),
+            "partitioned" => MultiNodeSimulation::new_partitioned(n + 1, 2, seed).with_packet_loss(0.1),
+            _ => return false,
+        };
+        let n = sim.nodes.len();
+        let keys: Vec<String> = (0..6).map(|i| format!("k{}", i)).collect();
+        for k in 1..=ops {
+            let what = r.below(100);
+            let line = if what < 40 {
+                let node = r.below(n as u64) as usize;
+                let key = r.pick(&keys).clone();
+                let v = format!("v{}", k);
+                let resp = sim.execute(k % 3, node, Command::set(key.clone(), SDS::from_str(&v)));
+                format!("set n{} {} {} -> {:?}", node, key, v, resp)
+            } else if what < 55 {
+                let node = r.below(n as u64) as usize;
+                let key = r.pick(&keys).clone();
+                let resp = sim.execute(k % 3, node, Command::Get(key.clone()));
+                format!("get n{} {} -> {:?}", node, key, resp)
+            } else if what < 60 {
+                let node = r.below(n as u64) as usize;
+                let key = r.pick(&keys).clone();
+                let resp = sim.execute(k % 3, node, Command::Del(vec![key.clone()]));
+                format!("del n{} {} -> {:?}", node, key, resp)
+            } else if what < 80 {
+                sim.advance_time_ms(1 + r.below(15));
+                sim.gossip_round();
+                format!("gossip queue={}", sim.message_queue.len())
+            } else if what < 88 {
+                let (a, b) = (r.below(n as u64) as usize, r.below(n as u64) as usize);
+                if a != b { sim.partition(a, b); }
+                format!("partition {} {}", a, b)
+            } else if what < 96 {
+                let (a, b) = (r.below(n as u64) as usize, r.below(n as u64) as usize);
+                if a != b { sim.heal_partition(a, b); }
+                format!("heal {} {}", a, b)
+            } else {
+                sim.run_full_anti_entropy();
+                "full-anti-entropy".to_string()
+            };
+            let clocks: Vec<String> = sim.nodes.iter().map(|nd| nd.replica_state.lamport_clock.time.to_string()).collect();
+            lines.push(format!("{} {} clocks={}", k, line, clocks.join(",")));
+        }
+        for a in 0..n {
+            for b in (a + 1)..n {
+                sim.heal_partition(a, b);
+            }
+        }
+        let conv = sim.converge(30);
+        for key in &keys {
+            lines.push(format!("final {} values={:?} converged={} lin={}", key, sim.get_all_values(key), sim.check_key_convergence(key),
+                check_single_key_linearizability(&sim.history, key).is_linearizable));
+        }
+        let clocks: Vec<String> = sim.nodes.iter().map(|nd| nd.replica_state.lamport_clock.time.to_string()).collect();
+        lines.push(format!("result converge={} history={} clocks={}", conv, sim.history.len(), clocks.join(",")));
+        true
+    }
+
+    pub fn partition(preset: &str, seed: u64, lines: &mut Vec<String>) -> bool {
+        let n = 5usize;
+        let cfg = match preset {
+            "isolate" => PartitionConfig::isolate_node(0, n),
+            "split_brain" => PartitionConfig::split_brain(vec![0, 1], vec![2, 3, 4]),
+            "asymmetric" => PartitionConfig::asymmetric(0, 4),
+            "ring" => PartitionConfig::ring(n),
+            _ => return false,
+        };
+        // two keys written on both sides: more than one key diverges before the heal
+        let r = run_partition_test(preset, n, seed, cfg,
+            vec![(0, "key1", "a0"), (n - 1, "key1", "a4"), (1, "key2", "b1"), (n - 1, "key2", "b4"), (0, "key3", "c0"), (3, "key3", "c3")],
+            vec![(0, "key1", "final"), (2, "key2", "final2")], 50);
+        lines.push(format!("{:?}", r));
+        fn iso(n: usize) -> PartitionConfig { PartitionConfig::isolate_node(0, n) }
+        if preset == "isolate" {
+            let b = run_partition_test_batch("batch", n, iso, 3 + (seed % 3) as usize);
+            lines.push(format!("{:?}", b));
+        }
+        true
+    }
+
+    pub fn pipeline(seed: u64, lines: &mut Vec<String>) -> bool {
+        let mut p = PipelineSimulator::new(seed);
+        for r in p.run() {
+            lines.push(format!("{:?}", r));
+        }
+        lines.push(p.summary());
+        true
+    }
+
+    pub fn scenario(preset: &str, seed: u64, ops: usize, lines: &mut Vec<String>) -> bool {
+        let mut r = Rng::new(seed ^ 0x5CE);
+        let mut b = ScenarioBuilder::new(seed);
+        b = match preset {
+            "plain" => b,
+            "buggify" => b.with_buggify(0.3),
+            _ => return false,
+        };
+        let mut t = 0u64;
+        for k in 0..ops {
+            t += r.below(20);
+            let key = format!("k{}", r.below(5));
+            let cmd = match r.below(5) {
+                0 | 1 => Command::set(key, SDS::from_str(&format!("v{}", k))),
+                2 => Command::Get(key),
+                3 => Command::Incr(format!("c{}", r.below(2))),
+                _ => Command::Del(vec![key]),
+            };
+            b = b.at_time(t).client(k % 3, cmd);
+        }
+        let h = b.run();
+        for op in h.history() {
+            lines.push(format!("{:?}", op));
+        }
+        lines.push(format!("result now={} history={}", h.current_time().as_millis(), h.history().len()));
+        true
+    }
+
+    /// unrelated simulation activity on this thread: another built-in harness with a legal
+    /// configuration of its own (it leaves its fault configuration in the thread-local context)
+    pub fn unrelated_activity() {
+        let cfg = DSTConfig { fault_config: FaultConfig::disabled(), ..DSTConfig::new(7) };
+        let mut sim = DSTSimulation::with_config(cfg);
+        sim.run_operations(5);
+        let _ = faults::process::CRASH;
+    }
+}
+
+/// one real harness run: canonical trace (what a model predicts, where there is one), verbatim
+/// report lines (compared between processes only) and, for `dst`, the iteration order `pi`
+#[derive(Clone, PartialEq, Debug, Default)]
+pub struct Trace {
+    pub lines: Vec<String>,
+    pub raw: Vec<String>,
+    pub pi: Vec<usize>,
 }
 
 /// the canonical trace of one real harness run, in THIS process
-pub fn harness_trace(harness: &str, preset: &str, seed: u64, ops: usize) -> Option<(Vec<String>, Vec<String>)> {
-    let mut lines = Vec::new();
-    let mut raw = Vec::new();
-    if harness.starts_with("crdt-") {
-        if !real::crdt(harness, preset, seed, ops, &mut lines, &mut raw) {
-            return None;
+pub fn harness_trace(harness: &str, preset: &str, seed: u64, ops: usize) -> Option<Trace> {
+    let mut t = Trace::default();
+    let ok = if harness.starts_with("crdt-") {
+        real::crdt(harness, preset, seed, ops, &mut t.lines, &mut t.raw)
+    } else {
+        match harness {
+            "dst" => real::dst(preset, seed, ops, &mut t.lines, &mut t.raw, &mut t.pi),
+            "redis-dst" => real::redis_dst(preset, seed, ops, &mut t.lines, &mut t.raw),
+            "executor" | "list" | "set" | "hash" | "sorted-set" | "transaction" => real::typed(harness, preset, seed, ops, &mut t.lines),
+            "wal" => real::wal(preset, seed, &mut t.lines),
+            "streaming" => real::streaming(preset, seed, ops, &mut t.lines),
+            "compaction" => real::compaction(preset, seed, ops, &mut t.lines),
+            "multi-node" => real::multi_node(preset, seed, ops, &mut t.lines),
+            "partition" => real::partition(preset, seed, &mut t.lines),
+            "connection" => real::pipeline(seed, &mut t.lines),
+            "scenario" => real::scenario(preset, seed, ops, &mut t.lines),
+            "sim-executor" => {
+                // the kernel script generator of part A, Simulation / timer flavours
+                let mut r = Rng::new(seed);
+                let mut c = Vec::new();
+                for fl in [3u64, 4, 5] {
+                    let script = gen_script(&mut r, fl);
+                    let (ops_l, ans) = run_script(&script, &mut r, &mut c);
+                    for (o, a) in ops_l.iter().zip(ans.iter()) {
+                        t.lines.push(format!("{} -> {}", o, a));
+                    }
+                }
+                true
+            }
+            _ => false,
         }
-        return Some((lines, raw));
+    };
+    for l in t.lines.iter_mut().chain(t.raw.iter_mut()) {
+        if l.contains('\n') {
+            *l = l.replace('\n', "\\n");
+        }
     }
-    None
+    if ok { Some(t) } else { None }
 }
 
-/// `rvharness --c20-child <harness> <preset> <seed> <ops>`: print the trace, `#raw ` lines last
+/// `rvharness --c20-child <harness> <preset> <seed> <ops>`: print the trace, `#raw ` / `#pi ` lines last
 pub fn child(args: &[String]) {
     if args.len() != 4 {
         eprintln!("usage: --c20-child <harness> <preset> <seed> <ops>");
         std::process::exit(2);
     }
+    std::panic::set_hook(Box::new(|_| {}));
     let seed: u64 = args[2].parse().expect("seed");
     let ops: usize = args[3].parse().expect("ops");
     match harness_trace(&args[0], &args[1], seed, ops) {
-        Some((lines, raw)) => {
+        Some(t) => {
             let mut s = String::new();
-            for l in lines {
-                s.push_str(&l);
+            for l in t.lines {
+                s.push_str(&l.replace('\n', "\\n"));
                 s.push('\n');
             }
-            for l in raw {
+            for l in t.raw {
                 s.push_str("#raw ");
-                s.push_str(&l);
+                s.push_str(&l.replace('\n', "\\n"));
                 s.push('\n');
             }
+            s.push_str(&format!("#pi {}\n", t.pi.iter().map(|x| x.to_string()).collect::<Vec<_>>().join(",")));
             use std::io::Write;
             std::io::stdout().write_all(s.as_bytes()).unwrap();
         }
@@ -641,7 +1100,7 @@ pub fn child(args: &[String]) {
     }
 }
 
-fn run_child(harness: &str, preset: &str, seed: u64, ops: usize) -> Result<(Vec<String>, Vec<String>), String> {
+fn run_child(harness: &str, preset: &str, seed: u64, ops: usize) -> Result<Trace, String> {
     let exe = std::env::current_exe().expect("current_exe");
     let o = std::process::Command::new(exe)
         .args(["--c20-child", harness, preset, &seed.to_string(), &ops.to_string()])
@@ -651,16 +1110,18 @@ fn run_child(harness: &str, preset: &str, seed: u64, ops: usize) -> Result<(Vec<
         return Err(format!("child exited with {:?}: {}", o.status.code(), String::from_utf8_lossy(&o.stderr).chars().take(400).collect::<String>()));
     }
     let text = String::from_utf8_lossy(&o.stdout).to_string();
-    let mut lines = Vec::new();
-    let mut raw = Vec::new();
+    let mut t = Trace::default();
     for l in text.lines() {
         if let Some(r) = l.strip_prefix("#raw ") {
-            raw.push(r.to_string());
+            t.raw.push(r.to_string());
+        } else if let Some(r) = l.strip_prefix("#pi ") {
+            t.pi = r.split(',').filter(|x| !x.is_empty()).map(|x| x.parse().unwrap()).collect();
+        } else if l == "#pi" {
         } else {
-            lines.push(l.to_string());
+            t.lines.push(l.to_string());
         }
     }
-    Ok((lines, raw))
+    Ok(t)
 }
 
 /// configuration numbers of the REAL preset, appended to the `RUN` line for the model
@@ -669,7 +1130,45 @@ fn cfg_numbers(harness: &str, preset: &str, seed: u64) -> Option<String> {
         let c = real::crdt_config(preset, seed)?;
         return Some(format!("{} {}", c.num_replicas, c.message_drop_prob.to_bits()));
     }
+    if harness == "dst" {
+        let c = real::dst_config(preset, seed)?;
+        // the probability `should_buggify` will read: the real FaultConfig::get of this preset
+        let p = c.fault_config.get(faults::process::CRASH);
+        return Some(format!(
+            "{} {} {} {} {} {} {} {} {}",
+            c.node_count, p.to_bits(), c.crash_config.enable_buggify_crashes as u8, c.enable_clock_skew as u8,
+            c.max_clock_skew_ms * 2, c.max_clock_drift_ppm * 2, c.crash_config.min_recovery_time_ms, c.crash_config.max_recovery_time_ms, c.max_time_ms
+        ));
+    }
     None
+}
+
+
+/// where a family has no model, a process-dependent trace is attributed to a CAUSE by the shape of
+/// its first divergence; anything that does not have that shape keeps the bare signature (unlisted)
+fn divergence_class(family: &str, preset: &str, a: Option<&String>, b: Option<&String>) -> &'static str {
+    if family == "multi-node" {
+        if let (Some(a), Some(b)) = (a, b) {
+            let strip = |s: &str| -> (String, String) {
+                match s.rsplit_once(" clocks=") {
+                    Some((h, c)) => (h.split_once(' ').map(|x| x.1).unwrap_or("").to_string(), c.to_string()),
+                    None => (s.to_string(), String::new()),
+                }
+            };
+            let (ha, ca) = strip(a);
+            let (hb, cb) = strip(b);
+            let anti = ha.starts_with("full-anti-entropy") || ha.starts_with("heal ");
+            if ha == hb && ca != cb && anti {
+                // same step, same reply; only the Lamport clocks after an anti-entropy exchange differ
+                return ":lamport-clock-after-anti-entropy";
+            }
+            if preset == "partitioned" && ha.starts_with("gossip ") && hb.starts_with("gossip ") {
+                // selective routing: the same gossip step; which target got which loss / delay draw differs
+                return ":routing-table-order-in-gossip-round";
+            }
+        }
+    }
+    ""
 }
 
 struct Family {
@@ -677,29 +1176,57 @@ struct Family {
     presets: &'static [&'static str],
     ops: usize,
     modelled: bool,
+    /// quick tier runs only the first `quick_presets` presets
+    quick_presets: usize,
 }
 
 const FAMILIES: &[Family] = &[
-    Family { name: "crdt-gcounter", presets: &["calm", "moderate", "chaos"], ops: 200, modelled: true },
-    Family { name: "crdt-pncounter", presets: &["calm", "moderate", "chaos"], ops: 200, modelled: true },
-    Family { name: "crdt-orset", presets: &["calm", "moderate", "chaos"], ops: 200, modelled: true },
-    Family { name: "crdt-vclock", presets: &["calm", "moderate", "chaos"], ops: 200, modelled: true },
+    Family { name: "crdt-gcounter", presets: &["calm", "moderate", "chaos"], ops: 200, modelled: true, quick_presets: 3 },
+    Family { name: "crdt-pncounter", presets: &["calm", "moderate", "chaos"], ops: 200, modelled: true, quick_presets: 3 },
+    Family { name: "crdt-orset", presets: &["calm", "moderate", "chaos"], ops: 200, modelled: true, quick_presets: 3 },
+    Family { name: "crdt-vclock", presets: &["calm", "moderate", "chaos"], ops: 200, modelled: true, quick_presets: 3 },
+    Family { name: "dst", presets: &["chaos", "chaos9", "default", "calm"], ops: 400, modelled: true, quick_presets: 4 },
+    Family { name: "sim-executor", presets: &["script"], ops: 0, modelled: false, quick_presets: 1 },
+    Family { name: "redis-dst", presets: &["chaos", "moderate", "calm"], ops: 150, modelled: false, quick_presets: 2 },
+    Family { name: "executor", presets: &["default", "chaos", "calm", "string_heavy"], ops: 300, modelled: false, quick_presets: 2 },
+    Family { name: "list", presets: &["default", "high_churn", "modify_heavy"], ops: 300, modelled: false, quick_presets: 1 },
+    Family { name: "set", presets: &["default", "small_members", "high_churn", "large_members"], ops: 300, modelled: false, quick_presets: 1 },
+    Family { name: "hash", presets: &["default", "small_fields", "high_churn"], ops: 300, modelled: false, quick_presets: 1 },
+    Family { name: "sorted-set", presets: &["default", "small_keyspace", "large_keyspace"], ops: 300, modelled: false, quick_presets: 1 },
+    Family { name: "transaction", presets: &["default", "high_conflict", "error_heavy"], ops: 200, modelled: false, quick_presets: 1 },
+    Family { name: "multi-node", presets: &["broadcast", "lossy", "partitioned", "no-anti-entropy"], ops: 250, modelled: false, quick_presets: 3 },
+    Family { name: "partition", presets: &["isolate", "split_brain", "ring", "asymmetric"], ops: 0, modelled: false, quick_presets: 2 },
+    Family { name: "streaming", presets: &["moderate", "chaos", "calm", "default"], ops: 150, modelled: false, quick_presets: 2 },
+    Family { name: "compaction", presets: &["chaos", "aggressive", "calm", "default"], ops: 120, modelled: false, quick_presets: 2 },
+    Family { name: "wal", presets: &["chaos", "default", "crash_only", "baseline"], ops: 0, modelled: false, quick_presets: 2 },
+    Family { name: "connection", presets: &["pipeline"], ops: 0, modelled: false, quick_presets: 1 },
+    Family { name: "scenario", presets: &["buggify", "plain"], ops: 120, modelled: false, quick_presets: 1 },
 ];
 
 fn part_b(a: &Args, out: &mut Out) {
     let thorough = a.tier == "thorough";
     let k_children = if thorough { 5 } else { 3 };
-    let seeds: Vec<u64> = if thorough { (a.seed..a.seed + 25).collect() } else { (a.seed..a.seed + 5).collect() };
+    let seeds: Vec<u64> = if thorough { (a.seed..a.seed + 20).collect() } else { (a.seed..a.seed + 5).collect() };
+    let only = std::env::var("C20_ONLY").ok();
     let mut explored: BTreeMap<String, serde_json::Value> = BTreeMap::new();
+    let mut must_agree: Vec<serde_json::Value> = Vec::new();
     for fam in FAMILIES {
+        if let Some(o) = &only {
+            if !o.split(',').any(|x| x == fam.name) {
+                continue;
+            }
+        }
         let mut runs = 0u64;
         let mut agree = 0u64;
-        for preset in fam.presets {
-            for &seed in &seeds {
+        let presets = if thorough { fam.presets } else { &fam.presets[..fam.quick_presets] };
+        for preset in presets {
+            // the process-level comparison costs K+3 runs: fewer seeds for the slow families in quick
+            let fam_seeds: &[u64] = if !thorough && !fam.modelled && matches!(fam.name, "streaming" | "compaction" | "redis-dst" | "multi-node") { &seeds[..3] } else { &seeds };
+            for &seed in fam_seeds {
                 let ops = if thorough { fam.ops * 2 } else { fam.ops };
                 let replay = json!({"harness": fam.name, "preset": preset, "seed": seed, "ops": ops,
                     "how": format!("rvharness --c20-child {} {} {} {}   (run it several times and diff)", fam.name, preset, seed, ops)});
-                let mut traces: Vec<(Vec<String>, Vec<String>)> = Vec::new();
+                let mut traces: Vec<Trace> = Vec::new();
                 let mut failed = false;
                 for _ in 0..k_children {
                     match run_child(fam.name, preset, seed, ops) {
@@ -717,53 +1244,90 @@ fn part_b(a: &Args, out: &mut Out) {
                 runs += 1;
                 let mut all_same = true;
                 for t in &traces[1..] {
-                    if t.0 != traces[0].0 {
-                        let i = first_diff(&traces[0].0, &t.0);
+                    if t.lines != traces[0].lines {
+                        let i = first_diff(&traces[0].lines, &t.lines);
                         all_same = false;
-                        out.violation(&format!("C20:trace-differs-across-processes:{}", fam.name),
+                        out.violation(&format!("C20:trace-differs-across-processes:{}{}", fam.name, divergence_class(fam.name, preset, traces[0].lines.get(i), t.lines.get(i))),
                             &format!("{} {} seed {}: two fresh processes print different traces; first divergence at trace line {}", fam.name, preset, seed, i + 1),
-                            json!({"replay": replay, "line": i + 1, "process_1": traces[0].0.get(i), "process_n": t.0.get(i)}));
+                            json!({"replay": replay, "line": i + 1, "process_1": traces[0].lines.get(i), "process_n": t.lines.get(i),
+                                   "iteration_order_1": traces[0].pi, "iteration_order_n": t.pi}));
                         break;
                     }
-                    if t.1 != traces[0].1 {
-                        let i = first_diff(&traces[0].1, &t.1);
+                    if t.raw != traces[0].raw {
+                        let i = first_diff(&traces[0].raw, &t.raw);
                         all_same = false;
-                        out.violation(&format!("C20:trace-differs-across-processes:{}:verbatim-report", fam.name),
-                            &format!("{} {} seed {}: the text the harness reports (summary / violation strings) differs between two fresh processes", fam.name, preset, seed),
-                            json!({"replay": replay, "process_1": traces[0].1.get(i), "process_n": t.1.get(i)}));
+                        out.violation(&format!("C20:report-differs-across-processes:{}", fam.name),
+                            &format!("{} {} seed {}: the text the harness reports (summary / violation strings / float statistics) differs between two fresh processes", fam.name, preset, seed),
+                            json!({"replay": replay, "process_1": traces[0].raw.get(i), "process_n": t.raw.get(i)}));
                         break;
                     }
                 }
                 // same process: twice, and once more after unrelated simulation activity
                 let p1 = harness_trace(fam.name, preset, seed, ops).expect("known harness");
                 let p2 = harness_trace(fam.name, preset, seed, ops).expect("known harness");
-                if p1 != p2 {
-                    let i = first_diff(&p1.0, &p2.0);
+                if p1.lines != p2.lines {
+                    let i = first_diff(&p1.lines, &p2.lines);
                     all_same = false;
-                    out.violation(&format!("C20:trace-differs-in-process:{}", fam.name),
+                    out.violation(&format!("C20:trace-differs-in-process:{}{}", fam.name, divergence_class(fam.name, preset, p1.lines.get(i), p2.lines.get(i))),
                         &format!("{} {} seed {}: two runs in one process differ; first divergence at trace line {}", fam.name, preset, seed, i + 1),
-                        json!({"replay": replay, "line": i + 1, "first": p1.0.get(i), "second": p2.0.get(i)}));
+                        json!({"replay": replay, "line": i + 1, "first": p1.lines.get(i), "second": p2.lines.get(i),
+                               "iteration_order_first": p1.pi, "iteration_order_second": p2.pi}));
                 }
-                if p1 != traces[0] {
-                    let i = first_diff(&p1.0, &traces[0].0);
+                real::unrelated_activity();
+                let p3 = harness_trace(fam.name, preset, seed, ops).expect("known harness");
+                real::unrelated_activity();
+                let p4 = harness_trace(fam.name, preset, seed, ops).expect("known harness");
+                buggify::set_config(FaultConfig::default());
+                // attributed to the earlier run only when everything else agrees and the effect repeats
+                if all_same && p1.lines == traces[0].lines && p3.lines != traces[0].lines && p3.lines == p4.lines {
+                    let i = first_diff(&p3.lines, &traces[0].lines);
                     all_same = false;
-                    out.violation(&format!("C20:trace-differs-across-processes:{}", fam.name),
+                    out.violation(&format!("C20:trace-depends-on-earlier-run:{}", fam.name),
+                        &format!("{} {} seed {}: after another built-in harness (DSTSimulation with FaultConfig::disabled()) ran on the same thread the trace differs from a fresh process; first divergence at trace line {}", fam.name, preset, seed, i + 1),
+                        json!({"replay": replay, "line": i + 1, "after_other_harness": p3.lines.get(i), "fresh_process": traces[0].lines.get(i)}));
+                }
+                if p1.lines != traces[0].lines && p1.lines == p2.lines {
+                    let i = first_diff(&p1.lines, &traces[0].lines);
+                    all_same = false;
+                    out.violation(&format!("C20:trace-differs-across-processes:{}{}", fam.name, divergence_class(fam.name, preset, p1.lines.get(i), traces[0].lines.get(i))),
                         &format!("{} {} seed {}: the parent process and a fresh child differ; first divergence at trace line {}", fam.name, preset, seed, i + 1),
-                        json!({"replay": replay, "line": i + 1, "parent": p1.0.get(i), "child": traces[0].0.get(i)}));
+                        json!({"replay": replay, "line": i + 1, "parent": p1.lines.get(i), "child": traces[0].lines.get(i)}));
                 }
                 if all_same {
                     agree += 1;
                 }
                 out.count(&format!("harness:{}:{}", fam.name, preset));
+                out.count_n(&format!("trace-lines:{}", fam.name), traces[0].lines.len() as u64);
                 let canon = format!("{} {} {} {}", fam.name, preset, seed, ops);
-                out.case(&canon, traces[0].0.len() > 3);
+                out.case(&canon, traces[0].lines.len() > 3);
                 if fam.modelled {
                     let cfgn = cfg_numbers(fam.name, preset, seed).expect("cfg numbers");
-                    let answer = format!("{} | {}", trace_digest(&traces[0].0), traces[0].0.last().cloned().unwrap_or_default());
-                    if seed == seeds[0] {
-                        out.sample(json!({"run": canon, "trace_head": traces[0].0.iter().take(4).collect::<Vec<_>>(), "answer": answer}));
+                    // with an iteration order as input: every process is its own case (its own order)
+                    let mut all: Vec<&Trace> = traces.iter().collect();
+                    all.push(&p1);
+                    all.push(&p2);
+                    all.push(&p3);
+                    all.push(&p4);
+                    let cases: Vec<&Trace> = if fam.name == "dst" { all } else { vec![&traces[0]] };
+                    let mut seen_pi: Vec<Vec<usize>> = Vec::new();
+                    for t in cases {
+                        if seen_pi.contains(&t.pi) && fam.name == "dst" {
+                            continue;
+                        }
+                        seen_pi.push(t.pi.clone());
+                        let answer = format!("{} | {}", trace_digest(&t.lines), t.lines.last().cloned().unwrap_or_default());
+                        if seed == seeds[0] {
+                            out.sample(json!({"run": canon, "trace_head": t.lines.iter().take(4).collect::<Vec<_>>(), "answer": answer}));
+                        }
+                        let pi = if fam.name == "dst" { format!(" {}", t.pi.iter().map(|x| x.to_string()).collect::<Vec<_>>().join(" ")) } else { String::new() };
+                        out.op(format!("RUN {} {} {} {} {}{}", fam.name, preset, seed, ops, cfgn, pi), answer);
+                        if fam.name == "dst" {
+                            // a process-dependent trace is only the KNOWN finding when the model,
+                            // given that process's iteration order, predicts exactly that trace
+                            must_agree.push(json!([out.n_ops(), "C20:trace-differs-across-processes:dst"]));
+                            must_agree.push(json!([out.n_ops(), "C20:trace-differs-in-process:dst"]));
+                        }
                     }
-                    out.op(format!("RUN {} {} {} {} {}", fam.name, preset, seed, ops, cfgn), answer);
                 }
             }
         }
@@ -771,6 +1335,7 @@ fn part_b(a: &Args, out: &mut Out) {
     }
     out.extra.insert("harness_runs".into(), json!(explored));
     out.extra.insert("children_per_run".into(), json!(k_children));
+    out.extra.insert("must_agree".into(), json!(must_agree));
 }
 
 pub fn run(a: &Args) {
@@ -778,6 +1343,7 @@ pub fn run(a: &Args) {
     std::panic::set_hook(Box::new(|_| {}));
     let mut out = Out::new(&a.out);
     part_b(a, &mut out);
+    buggify::set_config(FaultConfig::default());
     let n = out.n_ops() + a.n as usize;
     part_a(a, &mut out, n);
     out.finish("a kernel script is non-trivial when at least 3 of its ops return a value; a harness run is non-trivial when its trace has more than 3 lines");
